@@ -67,8 +67,10 @@ io_status_t PacketTunnelIOGateway :: DoInputImplementation(AbstractGatewayMessag
             const uint32 totalSize = unflat.ReadInt32();
 //printf("   PARSE magic=" UINT32_FORMAT_SPEC "/" UINT32_FORMAT_SPEC " sex=" UINT32_FORMAT_SPEC "/" UINT32_FORMAT_SPEC " messageID=" UINT32_FORMAT_SPEC " offset=" UINT32_FORMAT_SPEC " chunkSize=" UINT32_FORMAT_SPEC " totalSize=" UINT32_FORMAT_SPEC "\n", magic, _magic, sexID, _sexID, messageID, offset, chunkSize, totalSize);
 
-            if ((magic == _magic)&&((_sexID == 0)||(_sexID != sexID))&&((unflat.GetNumBytesAvailable() >= chunkSize)&&(totalSize <= _maxIncomingMessageSize)))
+            if ((magic == _magic)&&((_sexID == 0)||(_sexID != sexID))&&(unflat.GetNumBytesAvailable() >= chunkSize))
             {
+               if (totalSize > _maxIncomingMessageSize) {(void) unflat.SeekRelative(chunkSize); continue;}  // too big for us:  skip just this fragment, not the other Messages' fragments that follow it in the packet
+
                ReceiveState * rs = _receiveStates.GetAndMoveToBack(fromIAP);  // keep the "hot" ReceiveStates at the end of the iteration-list
                if (rs == NULL)
                {
